@@ -2,14 +2,42 @@
 (* Constants a .cfg cannot express: the method table and the entry alphabets. *)
 EXTENDS JsonRpc
 
-(* the method table the replayer registers on the real server (param a : int, param b : string):
-   m0()  m2(a, b)  m1o(a, b?)  mctx(ctx, a?, b?) *)
+(* the method table the replayer registers on the real server.
+   untyped (param a : int, param b : string):  m0()  m2(a, b)  m1o(a, b?)  mctx(ctx, a?, b?)
+   typed (the shapes of rpc/v10 signatures; the Go types are in harness/engines/jsonrpc):
+     ts(a struct, b? *struct)                      estimateMessageFee(msg, ..) / getEvents(args)
+     tp(ctx, a? *SubscriptionBlockID, b? *int)     subscribeNewHeads(ctx, blockID *SubscriptionBlockID)
+     tl(a []struct, b? map[string]*struct)         simulateTransactions(.., transactions, ..)
+     tc(a *BlockID, b? ResponseFlags)              getBlockWithTxs(blockID *BlockID, responseFlags ResponseFlags)
+     tq(ctx, a? []*struct, b? BlockID)
+     te(a *EventArgs, b? *struct)                  getEvents(args *EventArgs) *)
+P(n, o, t) == [name |-> n, opt |-> o, ty |-> t]
+TMethods == {"ts", "tp", "tl", "tc", "tq", "te"}
 MCMethods ==
-  [m \in {"m0", "m2", "m1o", "mctx"} |->
+  [m \in {"m0", "m2", "m1o", "mctx"} \cup TMethods |->
      CASE m = "m0"   -> [ctx |-> FALSE, params |-> <<>>]
-       [] m = "m2"   -> [ctx |-> FALSE, params |-> <<[name |-> "a", opt |-> FALSE], [name |-> "b", opt |-> FALSE]>>]
-       [] m = "m1o"  -> [ctx |-> FALSE, params |-> <<[name |-> "a", opt |-> FALSE], [name |-> "b", opt |-> TRUE]>>]
-       [] m = "mctx" -> [ctx |-> TRUE,  params |-> <<[name |-> "a", opt |-> TRUE],  [name |-> "b", opt |-> TRUE]>>]]
+       [] m = "m2"   -> [ctx |-> FALSE, params |-> <<P("a", FALSE, "int"), P("b", FALSE, "str")>>]
+       [] m = "m1o"  -> [ctx |-> FALSE, params |-> <<P("a", FALSE, "int"), P("b", TRUE, "str")>>]
+       [] m = "mctx" -> [ctx |-> TRUE,  params |-> <<P("a", TRUE, "int"),  P("b", TRUE, "str")>>]
+       [] m = "ts"   -> [ctx |-> FALSE, params |-> <<P("a", FALSE, "struct"),  P("b", TRUE, "pstruct")>>]
+       [] m = "tp"   -> [ctx |-> TRUE,  params |-> <<P("a", TRUE,  "pcustom"), P("b", TRUE, "pint")>>]
+       [] m = "tl"   -> [ctx |-> FALSE, params |-> <<P("a", FALSE, "slice"),   P("b", TRUE, "mapp")>>]
+       [] m = "tc"   -> [ctx |-> FALSE, params |-> <<P("a", FALSE, "pcustom"), P("b", TRUE, "flags")>>]
+       [] m = "tq"   -> [ctx |-> TRUE,  params |-> <<P("a", TRUE,  "lsp"),     P("b", TRUE, "custom")>>]
+       [] m = "te"   -> [ctx |-> FALSE, params |-> <<P("a", FALSE, "pstruct"), P("b", TRUE, "pstruct")>>]]
+
+(* the typed alphabet: every params value of a typed method over the tokens its slot types have
+   (positional: 0, 1, 2 values and 2 with a superfluous third; named: every combination, with and
+   without an undeclared name), as a request (int / string id) and as a notification (no id / null id) *)
+ParamsTyped(m) ==
+  LET Ta == TokOf(MCMethods[m].params[1].ty)
+      Tb == TokOf(MCMethods[m].params[2].ty) IN
+  {PAbsent, PNull, PScalar, PPos(<<>>)}
+    \cup {PPos(<<t>>) : t \in Ta} \cup {PPos(<<t1, t2>>) : t1 \in Ta, t2 \in Tb}
+    \cup {PPos(<<t1, t2, "p">>) : t1 \in Ta, t2 \in Tb}
+    \cup {PNamed(va, vb, vx) : va \in Ta \cup {NoTok}, vb \in Tb \cup {NoTok}, vx \in {NoTok, "p"}}
+ParamsTypedAll == UNION {ParamsTyped(m) : m \in TMethods}
+EntriesTyped == UNION {{Obj("v2", m, p, i) : p \in ParamsTyped(m), i \in {"int", "str", "absent", "null"}} : m \in TMethods}
 
 VersFull  == {"absent", "null", "v2", "v1", "num"}
 MethsFull == {"absent", "null", "empty", "nonstr", "unknown", "m0", "m2", "m1o", "mctx"}
@@ -54,7 +82,8 @@ EntriesTiny == {NonObj("scalar"), NonObj("null"),
 AllTops == {"garbage", "garbagearr", "single", "batch"}
 
 ASSUME PositionalEqNamed
-ASSUME BuildAgreesWithDecl(ParamsFull)
+\* (with the mechanism switched off the builder does NOT agree: JsonRpc_typed_nilptr.cfg shows it as an invariant violation)
+ASSUME NilPointerSkipsValidation => BuildAgreesWithDecl(ParamsFull \cup ParamsTypedAll)
 
 (* the pure property (no switches) - used with the faithful switches to show that TLC finds H8 *)
 PureBatchIsProcessed == Done => (Processed <=> PureProcessed)
